@@ -46,6 +46,7 @@ def one(pid):
 if __name__=='__main__':
     from concurrent.futures import ThreadPoolExecutor
     pids=[f'C{i:02d}' for i in range(1,21) if i!=5]
+    if len(sys.argv)>3: pids=[x for x in pids if x in sys.argv[3].split(',')]
     with ThreadPoolExecutor(10) as ex:
         for res in ex.map(one,pids):
             for r in res: print(*r,flush=True)
